@@ -674,6 +674,61 @@ def big_subgrid_ops(rng, thorough):
     return ops
 
 
+def idx_ops(rng, n_small, thorough):
+    """`snapidx`: the index maps of the real writer and readers against Model/Snapshot.lean.
+    Small layouts of every shape (cell counts per subgrid and subgrid counts independent per
+    dimension; cubic ones go through the buffered reader too, with a buffer smaller than the number
+    of subgrids), legacy grids, and the multi-block sizes derived from the writer's block size."""
+    import itertools
+    B = writer_block_sizes()[-1]
+    ops = []
+
+    def op(mode, n, g, buf):
+        ops.append("snapidx %s %d %d %d %d %d %d %d %d" % (mode, n[0], n[1], n[2], g[0], g[1], g[2], B, buf))
+    for p in sorted(set(itertools.permutations((1, 2, 4)))):
+        op("task", (8, 8, 8), p, rng.randint(1, 7))
+    perms = [(n, p) for n, ls in LAYOUTS.items() for l in ls for p in sorted(set(itertools.permutations(l)))]
+    for _ in range(n_small):
+        r = rng.random()
+        if r < 0.4:
+            n, g = rng.choice(perms)
+            op("task", (n, n, n), g, rng.randint(1, max(1, g[0] * g[1] * g[2] - 1)))
+        elif r < 0.8:
+            sc = [rng.choice([1, 2, 3, 4, 5, 7]) for _ in range(3)]
+            g = [rng.choice([1, 1, 2, 3, 4]) for _ in range(3)]
+            op("task", [sc[k] * g[k] for k in range(3)], g, 1)
+        else:
+            op("legacy", [rng.choice([1, 2, 3, 4, 5, 8, 11]) for _ in range(3)], (1, 1, 1), 1)
+    # more than one block per subgrid
+    n = 2
+    while n ** 3 // 2 <= B:
+        n += 2
+    for ax in ([0, 1, 2] if thorough else [2, 0]):
+        g = [1, 1, 1]
+        g[ax] = 2
+        op("task", (n, n, n), g, 1 if ax == 0 else 2)
+    if thorough:
+        m = n
+        while m ** 3 // 2 <= 2 * B:
+            m += 2
+        op("task", (m, m, m), (1, 2, 1), 2)
+    for (t, mode) in [(B, "eq"), (B, "above"), (2 * B, "above"), (B, "below"), (2 * B, "eq"), (2 * B, "below")]:
+        d = subgrid_dims(t, mode)
+        if d is None:
+            continue
+        for ax in ([0, 1, 2] if thorough else [rng.randrange(3)]):
+            perm = list(d)
+            rng.shuffle(perm)
+            g = [1, 1, 1]
+            g[ax] = 2
+            op("task", [perm[k] * g[k] for k in range(3)], g, 1)
+        if mode != "below" or thorough:
+            perm = list(d)
+            rng.shuffle(perm)
+            op("legacy", perm, (1, 1, 1), 1)      # the legacy writer streams the whole grid in blocks
+    return ops
+
+
 def snap_ops(rng, n_plain, n_task, thorough=False):
     """`snap`: legacy Cartesian grid -> CMacIonizeSnapshotDensityFunction;
     `snapb`: task-based grid (DensitySubGridCreator) -> both readers.  For `snapb` the per-subgrid
@@ -741,6 +796,21 @@ def snapshot_experiment(ctx):
         k = min(len(ans), len(ops) - 1)
         ctx.violation("snapshot:impl-crash", "snapshot experiment stopped after %d of %d grids (rc %d): %s" % (len(ans), len(ops), rc, err[-400:]),
                       {"stream": "snapshot", "ops": [ops[k]], "stderr": err[-1500:]})
+    # ---- index maps: model (Model/Snapshot.lean, theorems snapshot_layout / buffered_roundtrip /
+    # plain_roundtrip) against the real writer and readers
+    iops = [o for o in vlib.corpus_ops("C20") if o.startswith("snapidx")] + idx_ops(ctx.rng, ctx.budget(40, 600), ctx.thorough)
+    nmis, iimpl, imodel, iorc = ctx.correspond("snapshot-index", exe, vlib.driver("drv_c20"), iops,
+                                               cmp=lambda a, b, op: a == vlib.strip_branch(b).strip(),
+                                               oracle_key=lambda what, grp: "snapshot:" + what.split()[0])
+    for o, ml in zip(iops, imodel):
+        ctx.count()
+        w = o.split()
+        if " #" in ml:
+            for t in ml.split(" #")[1].split(","):
+                ctx.branch("snapshot:" + t)
+        ctx.distinct(("snapidx", o), nontrivial=(w[1] == "task" and len({w[5], w[6], w[7]}) > 1))
+    ctx.cov["snapshot_experiment"]["index_map_grids"] = len(iops)
+    ctx.cov["snapshot_experiment"]["index_map_cells"] = sum(int(o.split()[2]) * int(o.split()[3]) * int(o.split()[4]) for o in iops)
     for o in ops:
         ctx.count()
         w = o.split()
@@ -766,6 +836,20 @@ def readable(op):
 def replay(ctx, path):
     import json
     obj = json.load(open(path))
+    if obj.get("stream") == "snapshot-index":
+        exe = snap_build()
+        vlib.lake_build(["drv_c20"])
+        text = "\n".join(obj["ops"]) + "\n"
+        rc, out, err = vlib.run_exe(exe, text, timeout=600)
+        rc2, outm, errm = vlib.run_exe(vlib.driver("drv_c20"), text, timeout=600)
+        impl, orc = vlib.split_oracle(out)
+        model = [vlib.strip_branch(l).strip() for l in outm.split("\n") if l]
+        print("ops:\n  " + "\n  ".join(obj["ops"]))
+        print("implementation (rc=%d):\n  %s" % (rc, "\n  ".join(impl + orc)))
+        print("model:\n  " + "\n  ".join(model))
+        bad = rc != 0 or bool(orc) or impl != model
+        print("REPRODUCED" if bad else "not reproduced")
+        return 1 if bad else 0
     if obj.get("stream") == "snapshot":
         exe = snap_build()
         rc, out, err = vlib.run_exe(exe, "\n".join(obj["ops"]) + "\n", timeout=600)
